@@ -477,9 +477,15 @@ impl Vm {
       );
     }
 
-    let hooks = GcHooks::new(self);
     let mut sub_class = self.fiber.peek(0).to_obj().to_class();
 
+    // a class named like its superclass finds itself, `class Object {}`
+    if sub_class == super_class {
+      return self
+        .runtime_error_from_str(self.builtin.errors.runtime, "A class cannot inherit from itself.");
+    }
+
+    let hooks = GcHooks::new(self);
     sub_class.inherit(&hooks, super_class);
     sub_class.meta_from_super(&hooks);
 
